@@ -376,6 +376,74 @@ pub fn check_case_layout(entries: &[En], stream: bool, base: &Path, id: u64, st:
     drop(sb);
 }
 
+/// Archives whose central record and local header name the same entry differently (no writer produces them, an attacker
+/// does): the seekable extractor works from the central names, the streaming one creates files from the local headers
+/// and applies modes from the central records. Whatever the combination, nothing outside the target may be touched.
+pub fn check_split_case(pairs: &[(String, String, u8, u32)], stream: bool, base: &Path, id: u64, st: &mut Stats, order: u64) {
+    st.evals += 1;
+    let ex = if stream { "ZipStreamReader::extract" } else { "ZipArchive::extract" };
+    let case = || json!({"split": pairs.iter().map(|(l, c, k, m)| json!({"local": crate::util::hex(l.as_bytes()), "central": crate::util::hex(c.as_bytes()), "kind": k, "mode": m})).collect::<Vec<_>>(), "stream": stream});
+    let (sb, target) = match Sandbox::new(base, id) {
+        Ok(x) => x,
+        Err(e) => {
+            st.viol("machinery/sandbox", format!("cannot create sandbox: {e}"), case(), order);
+            return;
+        }
+    };
+    let canary = sb.root.join("canary").to_string_lossy().into_owned();
+    let spec = Spec {
+        entries: pairs
+            .iter()
+            .map(|(l, c, kind, mode)| ESpec {
+                name: l.replace("{CANARY}", &canary).into_bytes(),
+                central_name: Some(c.replace("{CANARY}", &canary).into_bytes()),
+                utf8: true,
+                method: 0,
+                content: if *kind == 1 { vec![] } else { b"split".to_vec() },
+                ext_attr: (if *kind == 1 { 0o040000 } else { 0o100000 } | mode) << 16 | if *kind == 1 { 0x10 } else { 0 },
+                ..Default::default()
+            })
+            .collect(),
+        ..Default::default()
+    };
+    let bytes = build(&spec).0;
+    st.distinct_hash(fnv(&bytes) ^ stream as u64);
+    let before = snapshot(&sb.root, Some(&target));
+    let r = guard(|| {
+        if stream {
+            zip::unstable::stream::ZipStreamReader::new(std::io::Cursor::new(&bytes[..])).extract(&target).map_err(|e| e.to_string())
+        } else {
+            zip::ZipArchive::new(std::io::Cursor::new(&bytes[..])).map_err(|e| format!("open: {e}")).and_then(|mut a| a.extract(&target).map_err(|e| e.to_string()))
+        }
+    });
+    let after = snapshot(&sb.root, Some(&target));
+    let names: Vec<String> = pairs.iter().map(|(l, c, _, _)| format!("local {l:?} / central {c:?}")).collect();
+    if before != after {
+        let mut diff = vec![];
+        for (k, v) in &after {
+            if before.get(k) != Some(v) {
+                diff.push(format!("{} {:?} (now type {} mode {:o})", if before.contains_key(k) { "changed" } else { "created" }, k, v.0, v.2));
+            }
+        }
+        for k in before.keys() {
+            if !after.contains_key(k) {
+                diff.push(format!("removed {k:?}"));
+            }
+        }
+        st.class("ESCAPED");
+        st.viol(format!("confinement/split-names/{}", if stream { "stream" } else { "seekable" }), format!("{ex} of {names:?} touched the file system outside the target: {}", diff.join(", ")), case(), order);
+        return;
+    }
+    match r {
+        Err(p) => {
+            st.class("PANIC");
+            st.viol(format!("panic/split-names/{}/{}", if stream { "stream" } else { "seekable" }, panic_site(&p)), format!("{ex} of {names:?} panicked: {p}"), case(), order);
+        }
+        Ok(r) => st.class(if r.is_ok() { "split-names:ok(confined)" } else { "split-names:error(confined)" }),
+    }
+    drop(sb);
+}
+
 fn name_shapes() -> Vec<String> {
     let comps = ["a", "b", ".", "..", ""];
     let mut v = vec![];
@@ -423,6 +491,20 @@ fn name_shapes() -> Vec<String> {
 }
 
 fn replay(case: &Value, st: &mut Stats) {
+    if let Some(sp) = case["split"].as_array() {
+        let pairs: Vec<(String, String, u8, u32)> = sp
+            .iter()
+            .map(|e| {
+                let h = |k: &str| String::from_utf8_lossy(&crate::util::unhex(e[k].as_str().unwrap_or(""))).into_owned();
+                (h("local"), h("central"), e["kind"].as_u64().unwrap_or(0) as u8, e["mode"].as_u64().unwrap_or(0) as u32)
+            })
+            .collect();
+        let base = crate::foreign::scratch_root().join(format!("zipmc-{}-c07r", std::process::id()));
+        let _ = std::fs::create_dir_all(&base);
+        check_split_case(&pairs, case["stream"].as_bool().unwrap_or(false), &base, 0, st, 0);
+        let _ = std::fs::remove_dir_all(&base);
+        return;
+    }
     let entries: Vec<En> = case["entries"]
         .as_array()
         .map(|a| {
@@ -536,6 +618,35 @@ pub fn run(args: &Args) -> i32 {
         check_case(&e, stream, base_r, (3 << 40) + t, st, (3 << 40) + t, "three-entries");
     });
     ctx.stats.merge(s);
+    // central record and local header disagree on the name: every (local, central) pair over 6 harmless and 9 escaping
+    // names x {file, directory} x modes {0o777, 0o000, 0o4755}, alone and behind an ordinary first entry
+    {
+        let safe = ["a", "keep", "s", "d/f", "canary/keep", "x/"];
+        let evil = ["../../../../canary/keep", "{CANARY}/keep", "{CANARY}", "../sibling/s", "../sibling", "../a", "../../a", "a/../../sibling/s", "../../../../canary"];
+        let all: Vec<String> = safe.iter().chain(evil.iter()).map(|s| s.to_string()).collect();
+        let na = all.len() as u64;
+        let all_r = &all;
+        let modes = [0o777u32, 0o000, 0o4755];
+        let s = par_for(na * na * 3 * 2 * 2, 8, |t, st| {
+            let stream = t % 2 == 1;
+            let with_first = (t / 2) % 2 == 1;
+            let mode = modes[((t / 4) % 3) as usize];
+            let j = t / 12;
+            let (l, c) = (&all_r[(j / na) as usize], &all_r[(j % na) as usize]);
+            if l == c {
+                return;
+            }
+            let kind = if c.ends_with('/') || l.ends_with('/') { 1 } else { 0 };
+            let mut pairs = vec![];
+            if with_first {
+                pairs.push(("first.txt".to_string(), "first.txt".to_string(), 0u8, 0o644u32));
+            }
+            pairs.push((l.clone(), c.clone(), kind, mode));
+            check_split_case(&pairs, stream, base_r, (6 << 40) + t, st, (6 << 40) + t);
+        });
+        ctx.stats.merge(s);
+        ctx.bound("split_names", json!({"names": all, "modes": ["777", "000", "4755"], "pairs": "every ordered pair (local header name, central record name), alone and after an ordinary entry", "oracle": "confinement and no panic"}));
+    }
     // one five-entry tree (70 001-byte and empty files, explicit and implied directories) in all 120 entry orders x 8 archive layouts
     let big = crate::zipapi::content_class(4, args.seed);
     let tree: Vec<En> = vec![
